@@ -613,6 +613,147 @@ def random_cases(ctx, r):
                      repro=repro + f'assert all({wr[0]} <= a.constraints["capacity_bin_0"].lhs.get_linear(f"x_{{i}}_0") <= {wr[1]} for i in range({ni}))\n')
 
 
+# ------------------------------------------------------------------------------------ random generators vs Rnd.* (draw stream recorded)
+
+class RecRS(np.random.RandomState):
+    """a RandomState that logs every scalar it hands out, in order (the explicit stream of the Lean models)"""
+    instances = []
+
+    def __init__(self, seed=None):
+        super().__init__(seed)
+        self.log = []
+        RecRS.instances.append(self)
+
+    def uniform(self, *a, **k):
+        v = super().uniform(*a, **k); self.log += [float(x) for x in np.atleast_1d(v).ravel()]; return v
+
+    def randint(self, *a, **k):
+        v = super().randint(*a, **k)
+        if not getattr(self, '_inside_choice', False):
+            self.log += [int(x) for x in np.atleast_1d(v).ravel()]
+        return v
+
+    def choice(self, a, size=None, replace=True, p=None):
+        vals = np.asarray(a)
+        self._inside_choice = True          # `choice` may be implemented through `randint`: log the index once
+        try:
+            idx = super().choice(len(vals), size=size, replace=replace, p=p)  # same state, same numbers: the index drawn
+        finally:
+            self._inside_choice = False
+        self.log += [int(x) for x in np.atleast_1d(idx).ravel()]
+        return vals[idx]
+
+
+class RecGen:
+    """wrapper of a numpy Generator logging the scalars of `integers` and the indices of `choice`"""
+    def __init__(self, g):
+        self.g = g; self.log = []
+
+    def integers(self, *a, **k):
+        v = self.g.integers(*a, **k); self.log += [int(x) for x in np.atleast_1d(v).ravel()]; return v
+
+    def choice(self, a, size=None, replace=True, p=None, **k):
+        vals = np.asarray(a)
+        idx = self.g.choice(len(vals), size=size, replace=replace, p=p, **k)
+        self.log += [int(x) for x in np.atleast_1d(idx).ravel()]
+        return vals[idx]
+
+
+class recording:
+    """patch `np.random.RandomState` / `np.random.default_rng` so that generators seeded with an int log their draws"""
+    def __enter__(self):
+        self.rs, self.dr = np.random.RandomState, np.random.default_rng
+        RecRS.instances = []
+        self.gens = []
+        np.random.RandomState = RecRS
+        orig = self.dr
+
+        def default_rng(seed=None):
+            g = RecGen(orig(seed)); self.gens.append(g); return g
+        np.random.default_rng = default_rng
+        return self
+
+    def __exit__(self, *exc):
+        np.random.RandomState, np.random.default_rng = self.rs, self.dr
+
+    def stream(self):
+        return [x for o in RecRS.instances + self.gens for x in o.log]
+
+
+def random_corr(ctx, r, lines, checks):
+    """every random generator with its draws recorded, against the deterministic post-processing of Rnd.*"""
+    for i in range(ctx.scale(14, 400)):
+        seed = r.choice([0, 1, r.randrange(2 ** 31)])
+        n = r.randint(0, 5)
+        nodes = list(range(n)) if r.random() < .5 else r.sample(['a', 'b', 'c', 'd', 'e', 'f', 0, 1, 2], n)
+        edges = [e for e in itertools.combinations(nodes, 2) if r.random() < .6]
+        if r.random() < .3:
+            edges = [tuple(reversed(e)) if r.random() < .5 else e for e in edges]; r.shuffle(edges)
+        graph = (nodes, edges)
+        vt = r.choice(['SPIN', 'BINARY'])
+        vtxt = ','.join(lab(v) for v in nodes) or '-'
+        etxt = ','.join(f'{lab(u)}~{lab(v)}' for u, v in edges) or '-'
+
+        def emit(name, call, env, line_of, show, cls=None):
+            site = f'generators.{name}'
+            pre = HDR + ''.join(f'{k} = {v!r}\n' for k, v in env.items() if k not in ('G', 'np'))
+            try:
+                with warnings.catch_warnings():
+                    warnings.simplefilter('ignore')
+                    with recording() as rec:
+                        out = eval(call, {'G': G, 'np': np, **env})
+                    st = rec.stream()
+            except Exception as e:  # noqa
+                ctx.fail('property', site, 'raises', f'{call} with {env!r}: {type(e).__name__}: {e}', repro=pre + f'{call}\n')
+                return
+            ctx.tick('random-corr:' + name); ctx.case(('random-corr', name, call, repr(env)), nontrivial=bool(st))
+            lines.append(line_of(','.join(rat(x) for x in st) or '-'))
+            checks.append((site + ' vs Rnd (draws recorded)', cls or 'placement of the draws', show(out) + f' #{len(st)}',
+                           pre + f'm = {call}\nprint(m)\n', False))
+        lo = r.choice([-4.0, -3.0, 0.0, 1.0]); hi = lo + r.choice([1.0, 4.0, 8.0])
+        env = dict(graph=graph, vt=vt, seed=seed)
+        emit('uniform', f'G.uniform(graph, vt, low={lo!r}, high={hi!r}, seed=seed)', env, lambda s: f'rnd graph {vt} {vtxt} {etxt} {s}', lambda b: 'ok ' + canon_bqm(b))
+        ilo = r.randint(-5, 3); ihi = ilo + r.randint(0, 6)
+        emit('randint', f'G.randint(graph, vt, low={ilo}, high={ihi}, seed=seed)', env, lambda s: f'rnd graph {vt} {vtxt} {etxt} {s}', lambda b: 'ok ' + canon_bqm(b))
+        rr = r.randint(1, 4)
+        for name in ('ran_r', 'power_r'):
+            emit(name, f'G.{name}({rr}, graph, seed=seed)', env, lambda s: f'rnd ranr {rr} {vtxt} {etxt} {s}', lambda b: 'ok ' + canon_bqm(b))
+        pd = r.choice([0, .25, .5, 1])
+        emit('doped', f'G.doped({pd!r}, graph, seed=seed)', env, lambda s: f'rnd doped {etxt} {s}', lambda b: 'ok ' + canon_bqm(b))
+        m = r.randint(0, 8)
+        envn = dict(nodes=nodes, vt=vt, seed=seed)
+        emit('gnm_random_bqm', f'G.gnm_random_bqm(nodes, {m}, vt, random_state=np.random.RandomState(seed))', envn,
+             lambda s: f'rnd gnm {vt} {vtxt} {m} {s}', lambda b: 'ok ' + canon_bqm(b), cls='pair selection')
+        pp = r.choice([0, .25, .5, .75, 1])
+        emit('gnp_random_bqm', f'G.gnp_random_bqm(nodes, {pp!r}, vt, random_state=np.random.RandomState(seed))', envn,
+             lambda s: f'rnd gnp {vt} {vtxt} {rat(pp)} {s}', lambda b: 'ok ' + canon_bqm(b))
+        ni = r.randint(0, 4); nb = r.randint(1, max(1, ni))
+        vr = (r.randint(1, 10), r.randint(11, 40)); wr = (r.randint(1, 10), r.randint(11, 40))
+        tr = r.choice([.5, .25, .75, 1.0])
+        envk = dict(seed=seed)
+        emit('random_knapsack', f'G.random_knapsack({ni}, seed=seed, value_range={vr!r}, weight_range={wr!r}, tightness_ratio={tr!r})', envk,
+             lambda s: f'rnd knap {ni} {rat(tr)} {s}', canon_cqm)
+        if ni:      # (no items, or more bins than items with a narrow weight range: `integers(cap_low, cap_high)` has an empty range and raises)
+            emit('random_multi_knapsack', f'G.random_multi_knapsack({ni}, {nb}, seed=seed, value_range={vr!r}, weight_range={wr!r})', envk,
+                 lambda s: f'rnd mknap {ni} {nb} {s}', canon_cqm)
+        if ni:
+            def binp_line(s, ni=ni):
+                ws = [int(F(x)) for x in s.split(',')] if s != '-' else []
+                return f'rnd binp {ni} {int(ni * np.mean(ws) / 5)} {s}'     # the capacity is computed in floating point by the code
+            emit('random_bin_packing', f'G.random_bin_packing({ni}, seed=seed, weight_range={wr!r})', envk, binp_line, canon_cqm)
+    # D39: the interactions of gnm_random_bqm must depend on the draws
+    nn, mm = 6, 3
+    sets = set()
+    for sd in range(12):
+        b = G.gnm_random_bqm(nn, mm, 'SPIN', random_state=sd)
+        sets.add(frozenset(frozenset((u, v)) for u, v, _ in b.iter_quadratic()))
+    ctx.tick('random:gnm:selection'); ctx.case(('random', 'gnm-selection', nn, mm), nontrivial=True)
+    if len(sets) < 2:
+        ctx.fail('property', 'generators.gnm_random_bqm', 'pair selection',
+                 f'gnm_random_bqm({nn}, {mm}, "SPIN", random_state=s) has the same interactions {sorted(map(sorted, next(iter(sets))))!r} for every seed s = 0..11: the pairs are not drawn at random',
+                 repro=HDR + f'sets = {{frozenset(frozenset((u, v)) for u, v, _ in G.gnm_random_bqm({nn}, {mm}, "SPIN", random_state=s).iter_quadratic()) for s in range(12)}}\nassert len(sets) > 1, sets\n')
+
+
 def run(ctx):
     r = ctx.rng
     ctx.rule = ('every gate generator with random labels (ints, strings, nested tuples) / strengths, both vartypes, every row of the truth table x every auxiliary value; '
@@ -625,8 +766,9 @@ def run(ctx):
     graph_cases(ctx, r, lines, checks)
     knap_cases(ctx, r, lines, checks)
     random_cases(ctx, r)
-    ctx.notes.append('random generators: range membership / declared graph / seed reproducibility are validated over seeds (NumPy generator contract), not proved; '
-                     'multiplication circuit "ground states == a*b=p" is enumerated (test), gate-level statement is proved')
+    random_corr(ctx, r, lines, checks)
+    ctx.notes.append('random generators: the NumPy generator is a contract (its draws are recorded and handed to the models as an explicit stream); placement of the draws, index maps, pair selection, capacities are modelled (Rnd.*) and proved; range / reproducibility over seeds stay validated; '
+                     'multiplication circuit: "energy 0 (minimised over the internal wires) iff p = a*b, else >= 1" is proved for all n, m >= 2 (multiplication_circuit_zero_iff_product); the enumeration up to 3x3 stays as a test')
     got = run_driver('gendriver', lines)
     ctx.corr_lines += len(lines)
     for i, ln in enumerate(lines):
